@@ -2,6 +2,7 @@ package dkgsim
 
 import (
 	"fmt"
+	"math/big"
 	"math/rand"
 	"sort"
 
@@ -128,6 +129,28 @@ func RunFVSS(c FVSSCase) FVSSResult {
 		switch m.T {
 		case "vec":
 			v := append([]byte(nil), get(orig, map[bool]string{true: m.P, false: "P1"}[m.P == "P1" || m.P == "P2"]).vec...)
+			if m.P == "PZ" {
+				// P(X) = a0 + a1 X with P(me+1) = 0, higher coefficients zero (identity points): a1 = -a0 / (me+1) mod r
+				rr := new(big.Int).SetBytes(frOrder)
+				a0i := new(big.Int).SetBytes(a0)
+				inv := new(big.Int).ModInverse(big.NewInt(me+1), rr)
+				a1 := new(big.Int).Mul(a0i, inv)
+				a1.Neg(a1).Mod(a1, rr)
+				a1b := make([]byte, 32)
+				a1.FillBytes(a1b)
+				sk1, err := crypto.DecodePrivateKey(crypto.BLSBLS12381, a1b)
+				if err != nil {
+					panic(err)
+				}
+				copy(v[1:97], A0)
+				copy(v[97:193], sk1.PublicKey().Encode())
+				for k := 2; k <= t; k++ {
+					for i := range v[1+96*k : 1+96*(k+1)] {
+						v[1+96*k+i] = 0
+					}
+					v[1+96*k] = 0xc0
+				}
+			}
 			switch m.K {
 			case "ok":
 			case "badsize":
